@@ -27,7 +27,15 @@ func TestVerifC10SecondSession(t *testing.T) {
 	c10InstallLogger()
 	rec := kit.NewRecorder(t, "C10", c10Rule+" [two-session mode: init(), route changes, a change right before dispose(), changes while down, init() on a new connection, more changes; the second connection's stream is judged against the second Adj-RIB-Out. Non-trivial: a route was added within the aggregation interval before the first session ended and removed while the session was down]")
 	unjudged := 0
-	rapid.Check(t, func(t *rapid.T) {
+	rapid.Check(t, c10SecondSessionProp(rec, &unjudged))
+	if unjudged > 0 {
+		t.Logf("C10/second-session: %d cases unjudged (a real-time deadline passed)", unjudged)
+	}
+}
+
+// c10SecondSessionProp is the property; C26 runs the same workload under the race detector.
+func c10SecondSessionProp(rec *kit.Recorder, unjudgedp *int) func(*rapid.T) {
+	return func(t *rapid.T) {
 		c := rec.Case()
 		defer c.Done()
 		c10Log.take()
@@ -97,7 +105,7 @@ func TestVerifC10SecondSession(t *testing.T) {
 				break
 			}
 			if time.Now().After(deadline) {
-				unjudged++
+				*unjudgedp++
 				c.Class("unjudged")
 				f.dispose()
 				return
@@ -119,8 +127,5 @@ func TestVerifC10SecondSession(t *testing.T) {
 		if diff := c10Diff(peer.table, want); diff != "" {
 			t.Fatalf("C10/second-session: the peer's view built from the second connection differs from the second session's Adj-RIB-Out on session %v\n%s\nsender log: %v\n%s", cs.sess, diff, c10Log.take(), c.String())
 		}
-	})
-	if unjudged > 0 {
-		t.Logf("C10/second-session: %d cases unjudged (a real-time deadline passed)", unjudged)
 	}
 }
